@@ -37,6 +37,15 @@ type retDerefErr struct{ s string }
 
 func (e *retDerefErr) Error() string { return e.s } // panics on a nil receiver
 
+type retStatusErr struct {
+	s    string
+	code int
+}
+
+func (e retStatusErr) Error() string       { return e.s }
+func (e retStatusErr) StatusCode() int     { return e.code }
+func (e retStatusErr) HTTPStatusCode() int { return e.code }
+
 type retValErr struct{ s string }
 
 func (e retValErr) Error() string { return e.s }
@@ -196,6 +205,12 @@ func retToGo(f []string, static string) interface{} {
 			return &retPtrErr{msg}
 		case "v":
 			return retValErr{msg}
+		case "c":
+			// an error of a foreign client library that carries an HTTP status of the UPSTREAM answer (possibly wrapped)
+			if len(msg)%2 == 0 {
+				return fmt.Errorf("%w", retStatusErr{msg, 404})
+			}
+			return retStatusErr{msg, 403}
 		case "t":
 			return (*retPtrErr)(nil)
 		}
@@ -439,7 +454,7 @@ var (
 	retCodes  = []int{200, 201, 204, 299, 301, 304, 400, 404, 418, 499, 500, 503, 599, 100, 101, 199, 600, 999}
 	retBad    = []int{0, -1, 99, 1000, -500, 65536}
 	retPos    = []string{"rt", "mw", "grp", "rta", "act"}
-	retErrK   = []string{"n", "w", "p", "v"}
+	retErrK   = []string{"n", "w", "p", "v", "c", "c"}
 )
 
 func retBody(r *rand.Rand) string {
